@@ -505,6 +505,11 @@ V('v01.13', 'C01', 'F', 'C01.R6', 'equations emitted in sorted order',
         for s in sorted(symbols, key=lambda x: str(x.name))
         # Only convert"""))
 V('v01.14', 'C01', 'F', 'C01.R6', 'parse_model returns a set-ordered list', (PARSER, 'parse_model', 'return list(symbols.values()) + verbatim', 'return list(set(symbols.values())) + verbatim'))
+V('v01.14', 'C01', 'F', 'C01.R1', "revert F27: names beginning with `_` rendered as self.__name (class-private mangling)",
+  (PARSER, 'Term.code', """        if self.name.startswith('_'):
+            return f"self.__dict__['_{self.name}']" + code[len(self.name):]
+
+""", ''))
 V('v01.s1', 'C01', 'S', None, 'f-strings -> concatenation', (PARSER, 'Term.__str__', "index = f'[t+{self.index_}]'", "index = '[t+' + str(self.index_) + ']'"))
 V('v01.s2', 'C01', 'S', None, '.get -> conditional expression',
   (PARSER, 'Term.code', 'return replacement_function_names.get(code, code)', 'return replacement_function_names[code] if code in replacement_function_names else code'))
